@@ -99,7 +99,7 @@ func VerifC17_SmallAllPositions() {
 // workers takes every shape; one chunk at a symbolic position is damaged.
 func VerifC17_Batches() {
 	type cfg struct{ k, n int }
-	cfgs := []cfg{{10, 1}, {11, 1}, {12, 1}, {19, 1}, {20, 1}, {21, 1}, {20, 2}, {21, 2}, {23, 2}}
+	cfgs := []cfg{{10, 1}, {11, 1}, {12, 1}, {19, 1}, {20, 1}, {21, 1}, {20, 2}, {21, 2}, {23, 2}, {1012, 1}} // the last: batches of more than 100 chunks
 	if vTier() > 0 {
 		cfgs = nil
 		for k := 6; k <= 44; k++ {
@@ -115,13 +115,19 @@ func VerifC17_Batches() {
 	}
 	c := cfgs[vChoose("config", len(cfgs))]
 	vPreempt(0) // schedules are the subject of VerifC17_SmallAllPositions; here: every batch shape x every position
-	inFile := vChoose("damage-in-file", 2) == 1
+	inFile := c.k > 200 || vChoose("damage-in-file", 2) == 1 // the big index only with a damaged file byte
 	pattern := 0
 	var j int
 	if inFile {
 		vSchedFixed(true)                       // which worker takes which batch does not change what a batch checks
 		pattern = vChoose("content-pattern", 3) // repetitive files: the same ID several times in one batch
-		j = vChoose("damaged-position", c.k)    // every position, one by one
+		if c.k > 200 {
+			// a big index: positions around the batch boundaries and deep inside a batch
+			pos := []int{0, 1, 99, 100, 101, 102, 150, 201, 202, 203, c.k - 2, c.k - 1}
+			j = pos[vChoose("damaged-position", len(pos))]
+		} else {
+			j = vChoose("damaged-position", c.k) // every position, one by one
+		}
 	} else {
 		j = vInt("damaged")
 		vAssume(j >= 0 && j < c.k)
